@@ -403,8 +403,10 @@ def run_path(harness, prefix, model, outcome_of=None):
     except PathAbort:
         res['status'] = 'aborted'
     except Unsupported as e:
+        import traceback
         res['status'] = 'unsupported'
         res['exc'] = repr(e)
+        res['tb'] = traceback.format_exc()[-1500:]
     except ReplayDivergence as e:
         res['status'] = 'divergence'
         res['exc'] = repr(e)
